@@ -104,6 +104,7 @@ func c09Check(g *cvGen, types []cty.Type) {
 					vAssert("converted-value-has-unified-type", r.Type().Equals(ty))
 				}
 				vAssert("converted-value-type-has-no-optional-attrs", cvNoOptional(r.Type()))
+				vAssert("converted-value-well-formed", cty.VerifWellFormed(r) == "")
 				if k == 1 && free {
 					var rc cty.Value
 					var ec error
